@@ -1,6 +1,6 @@
 (* C12: reverse_qubit_order mirrors every register and is its own inverse. *)
 From Coq Require Import ZArith List Bool String.
-From Verif Require Import BGate PyVal Ast State Unroll Corr Spec Transforms TransformProofs ModuleSpec ModuleProofs.
+From Verif Require Import BGate PyVal Ast State Unroll Corr Spec Transforms TransformProofs ModuleSpec ModuleProofs FixProofs ValidProofs.
 Import ListNotations.
 Open Scope Z_scope.
 
@@ -39,3 +39,19 @@ Example C12_example :
   = [SQubitDecl "q" (Some (ELit (VInt 4))); SQubitDecl "r" None;
      SGate [] "cx" [] [q 3; r 0]; SIf (EId "c") [SMeasure (q 2) (Some (bit_qarg ("c"%string, 0)))] []].
 Proof. vm_compute. reflexivity. Qed.
+
+(* ---- the visitor model and the transformed program (Module/ValidProofs.v + Lang/FixProofs.v) ----
+   What reverse_qubit_order() yields from a well-formed flat program (what unroll() leaves, Props/C03.v) is a well-formed flat program
+   again; hence, for every such program of any size: validate() accepts the result, unroll() accepts it and emits it
+   UNCHANGED (a later unroll()/validate() cannot undo or duplicate the transformation), and num_qubits is the total of
+   the program's qubit registers. *)
+Theorem C12_result_is_a_valid_program_the_visitor_leaves_as_it_is fuel p :
+  wf_flat env0 p = true -> (ldepth (reverse_qubits p) < fuel)%nat ->
+  (exists o, run_visit false true [] fuel (reverse_qubits p) = Ok o /\ num_qubits (o_state o) = total_qubits p) /\
+  (exists o, run_visit false false [] fuel (reverse_qubits p) = Ok o /\ o_stmts o = reverse_qubits p /\ num_qubits (o_state o) = total_qubits p).
+Proof. exact (reversed_program_is_valid_and_stable fuel p). Qed.
+Print Assumptions C12_result_is_a_valid_program_the_visitor_leaves_as_it_is.
+
+Theorem C12_keeps_wellformedness p : wf_flat env0 p = true -> wf_flat env0 (reverse_qubits p) = true.
+Proof. exact (reverse_keeps_wellformed p). Qed.
+Print Assumptions C12_keeps_wellformedness.
